@@ -194,7 +194,12 @@ theorem lattice_linear_in_kernel (form : LatticeEval.InputForm) (clipOn : Bool) 
 
 /-- **C19/T2, Lattice: the Jacobian row is a convex weight vector.** For in-range or clipped inputs
 the kernel-independent weights are the row-major products of the 1-D hat weights of the (clipped)
-point, are `≥ 0` and sum to one (from `C02_T1_weights`, `C02_T2_convex_weights`). -/
+point, are `≥ 0` and sum to one (from `C02_T1_weights`, `C02_T2_convex_weights`).
+`C02.Defined` is needed and is the property's own scope: C19 says "non-negative, summing to one for
+Lattice", which is the C02 convexity of the interpolation weights of "in-range or clipped inputs"; with
+`clip_inputs=False` and a coordinate outside the range the layer extrapolates, the Jacobian row is
+STILL the kernel-independent weight vector (`lattice_kernel_difference_quotient` has no such
+hypothesis) but it is not convex: `jacobian_row_convex_needs_defined`. -/
 theorem lattice_jacobian_row_convex (form : LatticeEval.InputForm) (clipOn : Bool) (sizes : List Nat)
     (x : List Rat) (hs : sizes ≠ []) (hs2 : ∀ n ∈ sizes, 2 ≤ n) (h : C02.Defined clipOn sizes x) :
     LatticeEval.hypercubeWeights form clipOn sizes x
@@ -336,7 +341,8 @@ theorem length_cumsumFrom (acc : Int) (l : List Int) : (LatticeEval.cumsumFrom a
 
 /-- **C19/T2, Lattice (simplex): the Jacobian row is a convex weight vector.** For in-range or
 clipped inputs whose gather indices stay inside a kernel of length `n` (otherwise the code raises),
-the kernel-independent simplex weight vector is `≥ 0` and sums to one. -/
+the kernel-independent simplex weight vector is `≥ 0` and sums to one. (`C02.Defined` needed:
+`jacobian_row_convex_needs_defined`; unclipped out-of-range points are outside the property.) -/
 theorem simplex_jacobian_row_convex (clipOn : Bool) (sizes : List Nat) (x : List Rat) (n : Nat)
     (hs2 : ∀ m ∈ sizes, 2 ≤ m) (h : C02.Defined clipOn sizes x)
     (hb : ∀ i ∈ C02.sIndices clipOn sizes x, i.toNat < n) :
@@ -346,6 +352,46 @@ theorem simplex_jacobian_row_convex (clipOn : Bool) (sizes : List Nat) (x : List
   refine ⟨scatterW_nonneg _ _ _ hc.1, ?_⟩
   rw [simplexKernelWeights, rsum_scatterW _ _ _ hb, hc.2]
   simp [C02.sIndices, length_cumsumFrom, LatticeEval.simplexWeights]
+
+/-- **Counter-witness: the convexity of the Jacobian row needs `C02.Defined`** (clip off and out of range
+— outside the property). Hypercube, all-2 tensor path, `x = −1/2` on `[2]`: row `[3/2, −1/2]`; general
+path, `x = (5/2, 1/4)` on `[3, 2]`: row `[0, 0, 0, 0, 3/8, 1/8]` (sum `1/2`); simplex at the same point: row
+`[0, 0, −1/2, 0, 5/4, 1/4]`. The real layers' `GradientTape` Jacobians at these points are exactly these
+rows (`[1.5, -0.5]`, `[0, 0, 0, 0, .375, .125]`, `[0, 0, -.5, 0, 1.25, .25]`; harness class
+`outside:clip_off_out_of_range` of `c19.py` compares them on every run): "gradient = weights,
+independent of the kernel" still holds there, "non-negative, summing to one" does not. -/
+theorem jacobian_row_convex_needs_defined :
+    LatticeEval.hypercubeWeights .tensor false [2] [-1/2] = [3/2, -1/2] ∧
+    LatticeEval.hypercubeWeights .tensor false [3, 2] [5/2, 1/4] = [0, 0, 0, 0, 3/8, 1/8] ∧
+    simplexKernelWeights false [3, 2] [5/2, 1/4] 6 = [0, 0, -1/2, 0, 5/4, 1/4] ∧
+    (∀ i ∈ C02.sIndices false [3, 2] [5/2, 1/4], i.toNat < 6) ∧
+    ¬ C02.Defined false [2] [-1/2] ∧ ¬ C02.Defined false [3, 2] [5/2, 1/4] := by
+  refine ⟨by decide +kernel, by decide +kernel, by decide +kernel, by decide +kernel, ?_, ?_⟩
+  · rintro ⟨-, h | h⟩
+    · cases h
+    · have := h.1.1; norm_num at this
+  · rintro ⟨-, h | h⟩
+    · cases h
+    · have := h.1.2; norm_num at this
+
+/-- `lattice_jacobian_row_convex` / `simplex_jacobian_row_convex` are FALSE with `C02.Defined` weakened to
+the rank condition. -/
+theorem jacobian_row_convex_false_without_defined :
+    ¬ (∀ (form : LatticeEval.InputForm) (clipOn : Bool) (sizes : List Nat) (x : List Rat), sizes ≠ [] →
+        (∀ n ∈ sizes, 2 ≤ n) → x.length = sizes.length →
+        ∀ j, 0 ≤ getR (LatticeEval.hypercubeWeights form clipOn sizes x) j) ∧
+    ¬ (∀ (clipOn : Bool) (sizes : List Nat) (x : List Rat) (n : Nat), (∀ m ∈ sizes, 2 ≤ m) →
+        x.length = sizes.length → (∀ i ∈ C02.sIndices clipOn sizes x, i.toNat < n) →
+        ∀ j, 0 ≤ getR (simplexKernelWeights clipOn sizes x n) j) := by
+  constructor
+  · intro h
+    have := h .tensor false [2] [-1/2] (by simp) (by simp) rfl 1
+    rw [jacobian_row_convex_needs_defined.1] at this
+    norm_num [getR] at this
+  · intro h
+    have := h false [3, 2] [5/2, 1/4] 6 (by simp) rfl jacobian_row_convex_needs_defined.2.2.2.1 2
+    rw [jacobian_row_convex_needs_defined.2.2.1] at this
+    norm_num [getR] at this
 
 /-- **C19/T2, Lattice (simplex): ∂out/∂K_j = W_j, whatever the kernel's value** (exact difference
 quotient; `K.set` keeps the length, hence the same `W`). -/
